@@ -40,16 +40,13 @@ class TCPSink(PacketSink, OutMixIn):
 
         self.packet_arrived(packet)
 
-        if len(self.recv_buffer) == 1:
-            # in-order delivery: all data up to but not including
-            # `next_seq_expected' have been received
-            self.next_seq_expected = packet.packet_id + packet.size
-        else:
-            # out-of-order delivery or retransmissions: needs
-            # to go through the receive buffer and find out
-            # what the last in-order packet's sequence number is
+        # cumulative ACK: all data up to but not including `next_seq_expected'
+        # has been received, i.e. the end of the first contiguous range if it
+        # starts at byte 0 (nothing is acknowledged while byte 0 is missing)
+        if self.recv_buffer[0][0] == 0:
             self.next_seq_expected = self.recv_buffer[0][1]
-
+        else:
+            self.next_seq_expected = 0
 
         acknowledgement = Packet(
             packet.time,
